@@ -38,6 +38,27 @@ Proof. vm_compute. reflexivity. Qed.
 
 Lemma bridge_nargs : NARGS_REQUIRED = NPlus /\ NARGS_OPTIONAL = NStar.
 Proof. split; reflexivity. Qed.
+(* on the regenerated `required` chain a merged field of the model is required exactly when it has no default *)
+Lemma bridge_required : is_required REQ_ELSE REQ_CHAIN true = Some true /\ is_required REQ_ELSE REQ_CHAIN false = Some false.
+Proof. split; vm_compute; reflexivity. Qed.
+(* the wrappers of a conflict come in registration order and nested destinations follow the parent's *)
+Lemma bridge_discovery : CONFLICT_DISCOVERY_ORDER && NESTED_DESTS_FROM_PARENT = true.
+Proof. vm_compute. reflexivity. Qed.
+(* int, float and str tokens are parsed by the type's own constructor *)
+Lemma bridge_primitives : forallb (fun t => str_in t PRIMITIVE_PARSERS) ["int"; "float"; "str"] = true.
+Proof. vm_compute. reflexivity. Qed.
+(* FieldWrapper.default asks the parent's defaults before the field's own default / default_factory, nothing else applies *)
+Lemma bridge_sources :
+  forall pdefs cd,
+    pick_source DEFAULT_SOURCES pdefs cd =
+    match pdefs with
+    | [] => match cd with Some d => Some (d, true) | None => None end
+    | [e] => Some (e, true)
+    | es => Some (VList es, false)
+    end.
+Proof. intros [|e [|e2 r]] [[]|]; reflexivity. Qed.
+Lemma bridge_defaults_property : DEFAULTS_TOP_FRESH = true /\ DEFAULTS_NESTED_SEEDED = true.
+Proof. split; reflexivity. Qed.
 Lemma bridge_bare : BARE_LITERAL_WRAPPED = false.
 Proof. reflexivity. Qed.
 Lemma bridge_merge : MERGE_FIRST_SORTED = true /\ MERGE_REST_UNSORTED = true /\ MERGE_DEDUPES = true.
@@ -298,7 +319,7 @@ Qed.
 (* ====================================================================== *)
 (* v' (what the converter built) becomes v at the destination, and cannot trigger the short-cut *)
 Definition goodv (k : kind) (v' v : val) : Prop :=
-  postprocess k v' = Ok v /\ (scalar_kind k = true -> scalar_val v' = true).
+  postprocess_gen k v' = Ok v /\ (scalar_kind k = true -> scalar_val v' = true).
 
 Definition tok_rel (k : kind) (t : tok) : Prop :=
   match spec_token k t with
@@ -324,7 +345,8 @@ Proof.
     + rewrite (str2bool_is_spec _ P). destruct (spec_word (t_raw t)) as [b|]; simpl;
         [exists (VBool b); repeat split; reflexivity | reflexivity].
   - destruct (str_in (t_raw t) ms) eqn:E; [|reflexivity].
-    exists (VStr (t_raw t)). split; [reflexivity|]. split; [|reflexivity]. simpl. rewrite E. reflexivity.
+    exists (VStr (t_raw t)). split; [reflexivity|]. split; [|reflexivity].
+    cbv [postprocess_gen postprocess POST_CHAIN run_post post_test_holds do_post]. rewrite E. reflexivity.
 Qed.
 
 (* a bracketed literal whose items have the item type (and, for a fixed tuple, the right arity) *)
@@ -406,7 +428,7 @@ Lemma goodv_scalars k vs' vs : Forall2 (goodv k) vs' vs -> scalar_kind k = true 
 Proof.
   induction 1 as [|a b ra rb [_ G] _ IH]; simpl; intros Hk; [reflexivity|]. rewrite (G Hk), (IH Hk). reflexivity.
 Qed.
-Lemma goodv_post k vs' vs : Forall2 (goodv k) vs' vs -> map_res (postprocess k) vs' = Ok vs.
+Lemma goodv_post k vs' vs : Forall2 (goodv k) vs' vs -> map_res (postprocess_gen k) vs' = Ok vs.
 Proof. induction 1 as [|a b ra rb [G _] _ IH]; simpl; [reflexivity|]. rewrite G, IH. reflexivity. Qed.
 Lemma Forall2_len {A B} (R : A -> B -> Prop) l1 l2 : Forall2 R l1 l2 -> List.length l1 = List.length l2.
 Proof. induction 1; simpl; congruence. Qed.
@@ -414,20 +436,39 @@ Proof. induction 1; simpl; congruence. Qed.
 (* ====================================================================== *)
 (* distribute                                                              *)
 (* ====================================================================== *)
+Lemma collect_gen_eq k pd cli :
+  collect_gen k pd cli =
+  match cli with
+  | None => match pd with Some l => Ok l | None => Err (Exit 2) end
+  | Some toks => match toks, (match pd with None => NPlus | Some _ => NStar end) with
+                 | [], NPlus => Err (Exit 2)
+                 | _, _ => map_res (convert_gen k) toks
+                 end
+  end.
+Proof.
+  unfold collect_gen, collect. destruct bridge_required as [Ht Hf]. destruct bridge_nargs as [Hr Ho].
+  destruct pd; cbv beta iota; [rewrite Hf | rewrite Ht]; destruct cli; try rewrite Hr; try rewrite Ho; reflexivity.
+Qed.
+
+Lemma distribute_gen_eq n k pd cli :
+  distribute_gen n k pd cli =
+  bind (collect_gen k pd cli) (fun pv => bind (duplicate_gen n k pv) (fun vs => map_res (postprocess_gen k) (firstn n vs))).
+Proof. reflexivity. Qed.
+
 (* the values reached the action: duplicate + postprocess follow the count rule *)
 Lemma distribute_values n k pd toks vs' vs :
   2 <= n -> toks <> [] \/ pd <> None ->
   map_res (convert_gen k) toks = Ok vs' -> Forall2 (goodv k) vs' vs ->
   distribute_gen n k pd (Some toks) = by_count n vs.
 Proof.
-  intros Hn Hne Hc F. unfold distribute_gen, distribute, collect.
-  assert (Hcol : (match toks, (match pd with None => NARGS_REQUIRED | Some _ => NARGS_OPTIONAL end) with
+  intros Hn Hne Hc F. rewrite distribute_gen_eq, collect_gen_eq.
+  assert (Hcol : (match toks, (match pd with None => NPlus | Some _ => NStar end) with
                   | [], NPlus => Err (Exit 2)
                   | _, _ => map_res (convert_gen k) toks
                   end) = Ok vs').
   { destruct toks as [|t r]; [|exact Hc]. destruct pd; [exact Hc|]. destruct Hne as [Hne|Hne]; congruence. }
-  unfold convert_gen in Hcol. rewrite Hcol. cbn [bind].
-  fold (duplicate_gen n k vs'). rewrite (dup_by_count n k vs' Hn (goodv_scalars k vs' vs F)).
+  rewrite Hcol. cbn [bind].
+  rewrite (dup_by_count n k vs' Hn (goodv_scalars k vs' vs F)).
   assert (L := Forall2_len _ _ _ F).
   unfold by_count. destruct F as [|a b ra rb G F]; [|destruct F as [|a2 b2 ra2 rb2 G2 F2]].
   - simpl. destruct n as [|[|n]]; try lia. reflexivity.
@@ -440,6 +481,15 @@ Proof.
     apply (goodv_post k (a :: a2 :: ra2) (b :: b2 :: rb2)). constructor; [exact G|]. constructor; assumption.
 Qed.
 
+(* the option written without any value *)
+Lemma distribute_no_value n k pd : 2 <= n ->
+  distribute_gen n k pd (Some []) = match pd with None => Err (Exit 2) | Some _ => Err Inconsistent end.
+Proof.
+  intros Hn. rewrite distribute_gen_eq, collect_gen_eq. destruct pd; cbn [map_res bind]; [|reflexivity].
+  rewrite dup_by_count by (auto; intros; reflexivity). unfold by_count.
+  destruct n as [|[|n]]; try lia. reflexivity.
+Qed.
+
 Lemma by_count_sized n vs : sized n (by_count n vs).
 Proof.
   unfold sized, by_count. intros out. destruct vs as [|v [|w r]].
@@ -450,7 +500,7 @@ Qed.
 
 (* the default d reaches every destination unchanged *)
 Definition default_fixed (k : kind) (d : val) : Prop :=
-  postprocess k d = Ok d /\ (scalar_kind k = true -> scalar_val d = true).
+  postprocess_gen k d = Ok d /\ (scalar_kind k = true -> scalar_val d = true).
 
 Lemma by_count_repeat n d : 2 <= n -> by_count n (repeat d n) = Ok (repeat d n).
 Proof.
@@ -466,8 +516,7 @@ Proof. intros H. induction n; simpl; [reflexivity | now rewrite H]. Qed.
 Lemma distribute_absent n k d : 2 <= n -> default_fixed k d ->
   distribute_gen n k (Some (repeat d n)) None = Ok (repeat d n).
 Proof.
-  intros Hn [Hp Hs]. unfold distribute_gen, distribute, collect. cbn [bind].
-  fold (duplicate_gen n k (repeat d n)).
+  intros Hn [Hp Hs]. rewrite distribute_gen_eq, collect_gen_eq. cbn [bind].
   rewrite (dup_by_count n k (repeat d n) Hn (fun Hk => scalars_repeat d n (Hs Hk))).
   rewrite (by_count_repeat n d Hn). cbn [bind].
   rewrite firstn_all2 by (rewrite repeat_length; lia). apply map_res_repeat. exact Hp.
@@ -489,14 +538,9 @@ Proof.
     + destruct (toks_dens k toks vs Ht E) as [vs' [Hc F]].
       destruct toks as [|t0 tr].
       * (* the option without a value *)
-        simpl in E. injection E as <-. simpl in Hc. injection Hc as <-.
-        split; [|intros out; unfold distribute_gen, distribute, collect; destruct pd; simpl; try discriminate;
-                 fold (duplicate_gen n k []); rewrite dup_by_count by (auto; intros; reflexivity); unfold by_count;
-                 destruct n as [|[|n]]; try lia; simpl; discriminate].
-        simpl. unfold distribute_gen, distribute, collect. destruct pd; simpl.
-        -- right. fold (duplicate_gen n k []). rewrite dup_by_count by (auto; intros; reflexivity).
-           unfold by_count. destruct n as [|[|n]]; try lia. reflexivity.
-        -- left. reflexivity.
+        simpl in E. injection E as <-. rewrite (distribute_no_value n k pd Hn).
+        split; [|intros out; destruct pd; discriminate].
+        simpl. destruct pd; [right | left]; reflexivity.
       * assert (Hne : t0 :: tr <> [] \/ pd <> None) by (left; discriminate).
         rewrite (distribute_values n k pd (t0 :: tr) vs' vs Hn Hne Hc F).
         split; [|apply by_count_sized].
@@ -505,14 +549,13 @@ Proof.
         -- simpl. reflexivity.
         -- destruct (Nat.eqb (List.length (v :: w :: r)) n); simpl; reflexivity.
     + assert (Hcol : collect_gen k pd (Some toks) = Err (Exit 2)).
-      { unfold collect_gen, collect. destruct toks as [|t0 tr]; [simpl in E; discriminate|].
+      { rewrite collect_gen_eq. destruct toks as [|t0 tr]; [simpl in E; discriminate|].
         exact (toks_nodens k (t0 :: tr) Ht E). }
-      unfold collect_gen in Hcol.
-      split; [simpl; left|intros out]; unfold distribute_gen, distribute; rewrite Hcol; [reflexivity | discriminate].
+      split; [simpl; left|intros out]; rewrite distribute_gen_eq, Hcol; [reflexivity | discriminate].
     + destruct toks as [|t0 tr]; [simpl in E; discriminate|].
       destruct (toks_weak k (t0 :: tr) Ht) as [Hc|[vs' [vs [Hc F]]]].
-      * split; [simpl; right; left|intros out]; unfold distribute_gen, distribute, collect;
-          unfold convert_gen in Hc; rewrite Hc; [reflexivity | discriminate].
+      * split; [simpl; right; left|intros out]; rewrite distribute_gen_eq, collect_gen_eq; cbv beta iota;
+          rewrite Hc; [reflexivity | discriminate].
       * assert (Hne : t0 :: tr <> [] \/ pd <> None) by (left; discriminate).
         rewrite (distribute_values n k pd (t0 :: tr) vs' vs Hn Hne Hc F).
         split; [|apply by_count_sized]. simpl. unfold by_count. destruct vs as [|v [|w r]].
@@ -615,31 +658,38 @@ Qed.
 
 (* run = distribute, once the layout is one where the first registered wrapper survives *)
 Lemma run_is_distribute dests k cd cli :
-  layout_ok dests ->
+  layout_ok dests -> 2 <= List.length dests ->
   (level (hd "" dests) <> 1 -> cd <> None) ->
   (level (hd "" dests) = 1 -> forall d, cd = Some d -> package_default_gen (List.length dests) k true d = Ok (repeat d (List.length dests))) ->
   sized (List.length dests) (distribute_gen (List.length dests) k (option_map (fun d => repeat d (List.length dests)) cd) cli) ->
   run_gen dests k cd (repeat None (List.length dests)) cli =
   distribute_gen (List.length dests) k (option_map (fun d => repeat d (List.length dests)) cd) cli.
 Proof.
-  intros Hl Hcd Hpk Hs. unfold run_gen, run.
+  intros Hl Hn2 Hcd Hpk Hs. unfold run_gen, run. rewrite bridge_discovery. cbn [negb].
   destruct dests as [|d0 rest]; [contradiction|]. destruct Hl as [Hnd [Hlv Htop]].
   fold (fix_conflict_merge_gen (d0 :: rest)). rewrite (merge_order d0 rest Hnd Hlv). cbn [bind hd].
   cbn [hd] in Hcd, Hpk.
   set (n := List.length (d0 :: rest)) in *.
-  assert (Hdo : bind (default_object (Nat.eqb (level d0) 1) n cd (repeat None n))
+  assert (Hdo : bind (default_object DEFAULT_SOURCES DEFAULTS_TOP_FRESH DEFAULTS_NESTED_SEEDED (Nat.eqb (level d0) 1) n cd (repeat None n))
                    (fun dobj => match dobj with
                                 | None => Ok None
                                 | Some (d, single) => bind (package_default PK_CHAIN n k single d) (fun l => Ok (Some l))
                                 end) = Ok (option_map (fun d => repeat d n) cd)).
-  { unfold default_object. destruct (Nat.eqb (level d0) 1) eqn:E1.
-    - apply Nat.eqb_eq in E1. assert (Hr : repeat (@None val) n = None :: repeat None (n - 1)).
-      { unfold n. simpl. now rewrite Nat.sub_0_r. }
-      rewrite Hr. cbn [bind]. destruct cd as [d|]; [|reflexivity]. cbn [bind option_map].
+  { assert (Hr : repeat (@None val) n = None :: repeat None (n - 1)).
+    { unfold n. simpl. now rewrite Nat.sub_0_r. }
+    unfold default_object, parent_defaults. destruct bridge_defaults_property as [Hf Hsd]. rewrite Hf, Hsd, Hr.
+    destruct (Nat.eqb (level d0) 1) eqn:E1.
+    - apply Nat.eqb_eq in E1. cbn [orb negb]. rewrite bridge_sources. cbv beta iota.
+      destruct cd as [d|]; [|reflexivity]. cbn [bind option_map].
       fold (package_default_gen n k true d). rewrite (Hpk E1 d eq_refl). reflexivity.
     - apply Nat.eqb_neq in E1. destruct cd as [d|]; [|exfalso; apply (Hcd E1); reflexivity].
+      rewrite bridge_sources. cbv beta iota.
+      assert (Hrd : repeat d n = d :: d :: repeat d (n - 2)).
+      { destruct n as [|[|n']]; try lia. simpl. now rewrite Nat.sub_0_r. }
+      rewrite Hrd at 1. cbv beta iota.
       cbn [bind option_map]. fold (package_default_gen n k false (VList (repeat d n))). rewrite package_perdest. reflexivity. }
-  destruct (default_object (Nat.eqb (level d0) 1) n cd (repeat None n)) as [dobj|e]; [|discriminate].
+  destruct (default_object DEFAULT_SOURCES DEFAULTS_TOP_FRESH DEFAULTS_NESTED_SEEDED (Nat.eqb (level d0) 1) n cd (repeat None n))
+    as [dobj|e]; [|discriminate].
   cbn [bind] in Hdo |- *. rewrite Hdo. cbn [bind].
   fold (distribute_gen n k (option_map (fun d => repeat d n) cd) cli).
   destruct (distribute_gen n k (option_map (fun d => repeat d n) cd) cli) as [out|e] eqn:Er; [|reflexivity]. cbn [bind].
@@ -676,7 +726,7 @@ Theorem run_meets dests k cd cli :
 Proof.
   intros Hl Hn Hcd Hty Hsafe Htoks.
   destruct (distribute_meets (List.length dests) k cd cli Hn (fun d E => typed_fixed k d (Hty d E)) Htoks) as [M S].
-  rewrite (run_is_distribute dests k cd cli Hl Hcd); [exact M | | exact S].
+  rewrite (run_is_distribute dests k cd cli Hl Hn Hcd); [exact M | | exact S].
   intros Ht d E. apply package_single. apply (Hsafe Ht d E).
 Qed.
 
